@@ -3995,7 +3995,8 @@ class Wallet(object):
             else:
                 fee_estimate = 0
             if isinstance(fee, str):
-                fee = fee_estimate
+                # Fee is calculated below with the estimated fee per kB for this priority, when the inputs are known
+                fee = None
 
         # Add inputs
         sequence = 0xffffffff
